@@ -1027,6 +1027,16 @@ class Table(Vector):
 	def __pow__(self, other):
 		return self._table_elementwise_operation(other, operator.pow, '__pow__', '**')
 
+	# Unary operators: column by column (each column keeps its name), not row by row.
+	def __neg__(self):
+		return Table(tuple(-col for col in self.cols()))
+
+	def __pos__(self):
+		return Table(tuple(+col for col in self.cols()))
+
+	def __abs__(self):
+		return Table(tuple(abs(col) for col in self.cols()))
+
 	# Reflected forms (scalar or sequence on the left): the same column-by-column rule with the
 	# operands swapped, so that names and shape are kept exactly as for `table <op> other`.
 	def __radd__(self, other):
